@@ -126,9 +126,65 @@ def main(argv: list[str]) -> int:
         if "--worlds" in argv:
             worlds = set(argv[argv.index("--worlds") + 1].split(","))
         return determinism(seeds, worlds)
+    if argv[0] == "sensitivity":
+        only = argv[1] if len(argv) > 1 and not argv[1].startswith("--") else None
+        tier = argv[argv.index("--tier") + 1] if "--tier" in argv else "quick"
+        return sensitivity(only, tier)
     if argv[0] == "digests":
         world, lens, cfg, n = argv[1], argv[2], json.loads(argv[3]), int(argv[4])
         base = int(os.environ.get("VERIF_SEED", "20260922"))
         print(json.dumps(_digests(world, lens, cfg, base, 0, n)))
         return 0
     return 2
+
+
+def sensitivity(only: str | None, tier: str = "quick") -> int:
+    """Apply each mutant / seeded change to a scratch worktree of /repo and
+    expect the matching check to exit 1 there. Not part of any registered check."""
+    import glob  # noqa: PLC0415
+    import re  # noqa: PLC0415
+    import shutil  # noqa: PLC0415
+
+    repo = os.environ.get("BTCSIM_REPO", "/repo")
+    patches: list[tuple[str, str, str]] = []  # (name, property, path)
+    for p in sorted(glob.glob(os.path.join(VERIF_DIR, "mutants", "*.patch"))):
+        name = os.path.basename(p)[:-6]
+        m = re.match(r"(?i)(c\d+)_", name)
+        if m:
+            patches.append((name, m.group(1).upper(), p))
+    for d in sorted(glob.glob(os.path.join(VERIF_DIR, "seeded", "*"))):
+        meta = os.path.join(d, "meta.json")
+        pd = os.path.join(d, "patch.diff")
+        if os.path.exists(meta) and os.path.exists(pd):
+            with open(meta) as f:
+                patches.append((os.path.basename(d), json.load(f)["property"], pd))
+    if only:
+        patches = [x for x in patches if only in x[0] or only == x[1]]
+    results = []
+    for name, prop, path in patches:
+        scratch = f"/var/tmp/btcsim-scratch-{os.getpid()}-{name}"
+        subprocess.run(["git", "-C", repo, "worktree", "add", "-q", "--detach", scratch, "HEAD"], check=True)  # noqa: S603, S607
+        try:
+            ap = subprocess.run(["git", "-C", scratch, "apply", path], capture_output=True, text=True, check=False)  # noqa: S603, S607
+            if ap.returncode != 0:
+                results.append((name, prop, "patch-does-not-apply", ap.stderr.strip()[:200]))
+                continue
+            env = dict(os.environ, PYTHONPATH=scratch, PYTHONHASHSEED="0")
+            env["BTCSIM_EVIDENCE_DIR"] = f"/var/tmp/btcsim-evidence-{os.getpid()}"
+            env["BTCSIM_REPLAY_DIR"] = f"/var/tmp/btcsim-replays-{os.getpid()}"
+            p = subprocess.run(  # noqa: S603
+                [sys.executable, "-m", "btcsim", "check", prop, "--tier", tier],
+                cwd=VERIF_DIR, env=env, capture_output=True, text=True, timeout=3600, check=False,
+            )
+            lines = [ln for ln in p.stdout.splitlines() if ln.startswith(("VIOLATION", "  invariant", "HARNESS", "KNOWN"))]
+            verdict = {0: "MISSED", 1: "caught", 2: "harness-error"}.get(p.returncode, f"exit {p.returncode}")
+            results.append((name, prop, verdict, " | ".join(lines[:4])))
+        finally:
+            subprocess.run(["git", "-C", repo, "worktree", "remove", "--force", scratch], check=False)  # noqa: S603, S607
+            shutil.rmtree(scratch, ignore_errors=True)
+        print(f"sensitivity {name} [{prop}]: {results[-1][2]}  {results[-1][3][:300]}", flush=True)
+    shutil.rmtree(f"/var/tmp/btcsim-evidence-{os.getpid()}", ignore_errors=True)
+    shutil.rmtree(f"/var/tmp/btcsim-replays-{os.getpid()}", ignore_errors=True)
+    missed = [r for r in results if r[2] != "caught"]
+    print(f"sensitivity: {len(results) - len(missed)}/{len(results)} caught")
+    return 1 if missed else 0
